@@ -75,26 +75,35 @@ func runC01(c *Ctx) {
 			if p, msg := try(func() {
 				s.RunCycle()
 				s.Reset()
-				err = s.SpawnWarrior(0, 0)
+				wi := 0
+				if sc.Bystanders > 0 {
+					wi = 1
+				}
+				err = s.SpawnWarrior(wi, 0)
+				if err == nil && sc.Bystanders > 0 {
+					err = s.SpawnWarrior(2, g.Address(sc.HelperAt))
+				}
 			}); p || err != nil {
 				c.Violate("C01:reuse:"+panicSite(msg), fmt.Sprintf("step, Reset, respawn failed: %v %s", err, msg), sc.describe())
 				return
 			}
 			c.Inc("cases_on_a_reset_simulator")
 		}
-		ref := mars.NewBattle(m, sc.P, 1000, sc.R, sc.W)
-		ref.Add(mars.WarriorCode{Code: sc.Core, Start: sc.PC})
-		ref.Spawn(0, 0)
+		ref, wi := sc.refFor(sc.Core, sc.PC)
 		ref.Rec = true
 		var last mars.TaskTrace
-		ref.Trace = func(t mars.TaskTrace) { last = t }
+		ref.Trace = func(t mars.TaskTrace) {
+			if t.Warrior == wi {
+				last = t
+			}
+		}
 		full := m <= 1024
 		lc := limitClass(sc)
 		for step := 0; step < sc.K; step++ {
-			if len(ref.W[0].Queue) == 0 {
+			if len(ref.W[wi].Queue) == 0 {
 				break
 			}
-			pc := ref.W[0].Queue[0]
+			pc := ref.W[wi].Queue[0]
 			form := formOf(ref.Core[pc])
 			ref.RunCycle()
 			if m <= 4096 && r.Chance(1, 4) {
@@ -115,9 +124,9 @@ func runC01(c *Ctx) {
 					fmt.Sprintf("step %d at pc=%d (%s): %s", step, pc, insnStr(sc.Core[pc]), d), sc.describe())
 				return
 			}
-			if q := w.Queue(); !queueEq(q, ref.W[0].Queue) {
+			if q := w.Queue(); !queueEq(q, ref.W[wi].Queue) {
 				c.Violate(fmt.Sprintf("C01:queue:%s.%s", mars.OpNames[formInsn(form).Op], mars.ModNames[formInsn(form).Mod]),
-					fmt.Sprintf("step %d at pc=%d: gmars queue %v, reference queue %v", step, pc, q, ref.W[0].Queue), sc.describe())
+					fmt.Sprintf("step %d at pc=%d: gmars queue %v, reference queue %v", step, pc, q, ref.W[wi].Queue), sc.describe())
 				return
 			}
 			if inv := verifInvariants(s); len(inv) > 0 {
@@ -146,7 +155,7 @@ func runC01(c *Ctx) {
 			if last.Dropped > 0 {
 				c.Inc("dropped_pushes")
 			}
-			if len(ref.W[0].Queue) > 1 {
+			if len(ref.W[wi].Queue) > 1 {
 				c.Inc("steps_with_queue_gt1")
 			}
 			c.Set("form_x_limitclass", fmt.Sprintf("%d|%s", form, lc))
